@@ -386,6 +386,63 @@ def c08_obligations(tier):
     return obs
 
 
+# ----------------------------------------------------------------------------- C06
+def c06_rebase():
+    """the rebasing block of IntervalTier.crop (`if rebaseToZero is True:` ... up to the span
+    assignment) on two abutting kept intervals: every timestamp is the single rounded
+    difference x - cropStart, so the shared boundary stays one value"""
+    import z3
+    from engine import ksmt
+
+    fdef = ksmt.func_ast(IntervalTier.crop)
+    blk = None
+    for n in ast.walk(fdef):
+        if isinstance(n, ast.If) and ast.unparse(n.test).replace(" ", "") in ("rebaseToZeroisTrue", "rebaseToZero"):
+            blk = n
+    if blk is None:
+        raise ksmt.AnchorMissing("`if rebaseToZero is True:` block in IntervalTier.crop")
+    a, b, s0, e0, e1 = [z3.FP(n, ksmt.F64) for n in ("a", "b", "s0", "e0", "e1")]
+    mk = lambda x, y, z: (x, y, z)  # noqa
+
+    def make_env():
+        env = dict(IntervalTier.crop.__globals__)
+        env.update({"cropStart": a, "cropEnd": b, "Interval": mk, "newEntryList": [mk(s0, e0, "x"), mk(e0, e1, "y")], "len": len})
+        return env
+
+    assume = [z3.fpLEQ(ksmt.fpv(0.0), a), z3.fpLEQ(a, s0), z3.fpLT(s0, e0), z3.fpLT(e0, e1), z3.fpLEQ(e1, b), z3.fpLEQ(b, ksmt.fpv(TWO20))]
+    sub = lambda x: z3.fpSub(ksmt.RNE, x, a)  # noqa
+    claims = []
+    for pc, env, oc in ksmt.explore(blk.body, make_env):
+        lst = env.get("newEntryList")
+        if oc[0] != "fall" or not isinstance(lst, list) or len(lst) != 2 or "maxT" not in env:
+            claims.append((pc, True))
+            continue
+        got = [ksmt.to_fp(lst[0][0]), ksmt.to_fp(lst[0][1]), ksmt.to_fp(lst[1][0]), ksmt.to_fp(lst[1][1]), ksmt.to_fp(env["maxT"])]
+        want = [sub(s0), sub(e0), sub(e0), sub(e1), z3.fpSub(ksmt.RNE, b, a)]
+        claims.append((pc, z3.Or(*[z3.Not(z3.fpEQ(g, w)) for g, w in zip(got, want)])))
+    return _solve(claims, dict(a=a, b=b, s0=s0, e0=e0, e1=e1), assume, 120)
+
+
+def c06_rebase_replay(a, b, s0, e0, e1):
+    t = IntervalTier("t", [Interval(s0, e0, "x"), Interval(e0, e1, "y")], 0.0, b)
+    r = t.crop(a, b, "truncated", True)
+    es = r.entries
+    if len(es) != 2:
+        return "entry count"
+    if es[0][1] != es[1][0]:
+        return "the shared boundary of two abutting intervals was split by rebasing"
+    if (es[0][0], es[0][1], es[1][1]) != (s0 - a, e0 - a, e1 - a):
+        return "a timestamp is not x - cropStart"
+    if (r.minTimestamp, r.maxTimestamp) != (0.0, b - a):
+        return "span is not [0, b-a]"
+    return True
+
+
+def c06_obligations(tier):
+    fn = ["praatio.data_classes.interval_tier.IntervalTier.crop (rebasing block, translated from the AST)"]
+    return [Ob("fp-crop-rebase-shared-boundary", F("a", "b", "s0", "e0", "e1"), c06_rebase_replay, kind="smt", smt=_guard(c06_rebase), timeout=400, funcs=fn, bounds="two abutting intervals inside the window, all binary64 values in [0, 2^20]")]
+
+
 # ----------------------------------------------------------------------------- C09
 class _Reporter:
     def __init__(self):
@@ -449,6 +506,66 @@ def c09_span_replay(which):
 def c09_obligations(tier):
     fn = ["praatio.utilities.utils.checkIsOvershoot/checkIsUndershoot (translated from the AST)"]
     return [Ob("fp-span-test-%s" % w, F("t", "ref"), c09_span_replay(w), kind="smt", smt=_guard(c09_span_test(w)), timeout=300, funcs=fn, bounds="all finite binary64 pairs (t, reference)") for w in ("over", "under")]
+
+
+# ----------------------------------------------------------------------------- C14
+def c14_point_edge():
+    """one iteration of the loop of PointTier.dejitter with a one-point reference: a point whose
+    distance |t - r| (as the subtraction computes it) is at most maxDifference is moved onto r,
+    one further than 2 maxDifference stays"""
+    import z3
+    from engine import ksmt
+    from praatio.data_classes.point_tier import PointTier
+
+    fdef = ksmt.func_ast(PointTier.dejitter)
+    loop = ksmt.find_for(fdef, "self.entries")
+    pre = []
+    for st in fdef.body:
+        if st is loop:
+            break
+        if isinstance(st, ast.Assign):
+            pre.append(st)
+    t, r, D = [z3.FP(n, ksmt.F64) for n in ("t", "r", "D")]
+    params = [a.arg for a in fdef.args.args]
+
+    def make_env():
+        env = dict(PointTier.dejitter.__globals__)
+        env.update({params[0]: ksmt.Rec(["entries"], entries=[(t, "q")]), params[1]: ksmt.Rec(["timestamps"], timestamps=[r]), params[2]: D, "Point": (lambda a, b: (a, b)), "abs": abs, "min": min})
+        return env
+
+    lo, hi = ksmt.fpv(0.0), ksmt.fpv(TWO20)
+    assume = [z3.fpLEQ(lo, t), z3.fpLEQ(t, hi), z3.fpLEQ(lo, r), z3.fpLEQ(r, hi), z3.fpLT(lo, D), z3.fpLEQ(D, hi)]
+    d = z3.fpAbs(z3.fpSub(ksmt.RNE, t, r))
+    inside = z3.fpLEQ(d, D)
+    outside = z3.fpGT(d, z3.fpMul(ksmt.RNE, ksmt.fpv(2.0), D))
+    claims = []
+    for pc, env, oc in ksmt.explore(pre + [loop], make_env):
+        lst = [v for k, v in env.items() if isinstance(v, list) and k not in (params[0], params[1]) and len(v) == 1 and isinstance(v[0], (tuple, list)) and len(v[0]) == 2]
+        if oc[0] != "fall" or len(lst) != 1:
+            claims.append((pc, True))
+            continue
+        g = ksmt.to_fp(lst[0][0][0])
+        claims.append((pc, z3.Or(z3.And(inside, z3.Not(z3.fpEQ(g, r))), z3.And(outside, z3.Not(z3.fpEQ(g, t))))))
+    return _solve(claims, dict(t=t, r=r, D=D), assume, 200)
+
+
+def c14_point_edge_replay(t, r, D):
+    from praatio.data_classes.point_tier import PointTier
+    from praatio.utilities.constants import Point
+
+    hi = max(t, r)
+    g = PointTier("p", [Point(t, "q")], 0.0, hi).dejitter(PointTier("ref", [Point(r, "m")], 0.0, hi), D).entries[0][0]
+    d = abs(t - r)
+    if d <= D and g != r:
+        return "point %r is %r <= maxDifference %r from the reference %r but was not moved" % (t, d, D, r)
+    if d > 2 * D and g != t:
+        return "a point further than 2 maxDifference from the reference was moved"
+    return True
+
+
+def c14_obligations(tier):
+    fn = ["praatio.data_classes.point_tier.PointTier.dejitter (loop body, translated from the AST) + my_math.lessThanOrEqual/isclose"]
+    return [Ob("fp-dejitter-point-edge", F("t", "r", "D"), c14_point_edge_replay, kind="smt", smt=_guard(c14_point_edge), timeout=900, funcs=fn, bounds="one point, one reference point, all binary64 values in [0, 2^20], maxDifference in (0, 2^20]")]
 
 
 # ----------------------------------------------------------------------------- C16
